@@ -16,6 +16,38 @@ def fresh():
     Node.store.clear()
 
 
+# Concrete text placed around the (short) symbolic string: long runs reach length thresholds, fragments let one or two symbolic
+# characters complete a multi-character token (']]' + '>', '&am' + 'p;', ...). Index chosen per process by VERIF_AFFIX.
+AFFIXES = [
+    ("", ""),
+    ("x" * 40, ""),
+    ("", "y" * 70),
+    ("&&&]]", ""),
+    ("<<<]]", "<"),
+    ("]]", ""),
+    ("&am", ""),
+    ("&#", ";"),
+    ("12345", "6789"),
+    ("a\u2028b\U0001F600", ""),
+    ("\\", "\\"),
+    ("ab " * 21, " cd"),
+]
+
+
+def affix(s):
+    """Wrap the symbolic string in the process's concrete affix (None stays None)."""
+    if s is None:
+        return None
+    try:
+        k = int(os.environ.get("VERIF_AFFIX", "0"))
+    except ValueError:
+        k = 0
+    pre, post = AFFIXES[k % len(AFFIXES)]
+    if not pre and not post:
+        return s
+    return pre + s + post
+
+
 def part(default=0):
     try:
         return int(os.environ.get("VERIF_PART", default))
